@@ -138,12 +138,12 @@ func c18sClone(src dbm.DB) *dbm.MemDB {
 // chain of states (real updateState), real heights
 
 type c18sCfg struct {
-	Initial int64   // real initial height
-	N       int64   // number of heights
-	ValChg  []int64 // real heights whose EndBlock changes the validator set
-	ParChg  []int64
-	Boot    int64 // 0 or real height restored by state sync
-	NVals   int
+	Initial int64   `json:"initial"` // real initial height
+	N       int64   `json:"n"`       // number of heights
+	ValChg  []int64 `json:"valchg"`  // real heights whose EndBlock changes the validator set
+	ParChg  []int64 `json:"parchg"`
+	Boot    int64   `json:"boot"` // 0 or real height restored by state sync
+	NVals   int     `json:"nvals"`
 }
 
 type c18sChain struct {
@@ -285,7 +285,15 @@ func (ch *c18sChain) resetEvent(run int, full bool, label string) map[string]int
 	if ch.cfg.Boot > 0 {
 		boot = ch.model(ch.cfg.Boot)
 	}
-	return map[string]interface{}{"ev": "Reset", "run": run, "label": label, "cfg": map[string]interface{}{
+	nn := func(x []int64) []int64 {
+		if x == nil {
+			return []int64{}
+		}
+		return x
+	}
+	hcfg := map[string]interface{}{"initial": ch.cfg.Initial, "n": ch.cfg.N, "valchg": nn(ch.cfg.ValChg),
+		"parchg": nn(ch.cfg.ParChg), "boot": ch.cfg.Boot, "nvals": ch.cfg.NVals}
+	return map[string]interface{}{"ev": "Reset", "run": run, "label": label, "hcfg": hcfg, "cfg": map[string]interface{}{
 		"lo": ch.lo, "hi": ch.hi, "initial": int64(1), "boot": boot, "batch": 1000, "ckpt": ckpt,
 		"nparts": nparts, "vs": ch.vs, "ps": ch.ps, "chk": []string{"state"}, "full": full, "offset": ch.off}}
 }
@@ -536,10 +544,17 @@ func (a *c18sAuditor) audit(sdb dbm.DB, dirty map[int64]bool) (ranges []c18sRang
 // histories
 
 type c18sOp struct {
-	Op    string // Genesis, Save, SaveABCI, Bootstrap, PruneStates, Reopen
-	A, B  int64  // real heights
-	Crash int    // -1 none, k, -2 random
-	Audit string // "", "none", "sample"
+	Op    string `json:"op"`    // Genesis, Save, SaveABCI, Bootstrap, PruneStates, Reopen, Push, Pop, Load
+	A     int64  `json:"a"`     // real heights
+	B     int64  `json:"b"`
+	Crash int    `json:"crash"` // -1 none, k, -2 random
+	Audit string `json:"audit"` // "", "none", "sample", "silent"
+}
+
+type c18sReplay struct {
+	Cfg         c18sCfg  `json:"cfg"`
+	Ops         []c18sOp `json:"ops"`
+	Incremental bool     `json:"incremental"`
 }
 
 type c18sOut struct {
@@ -573,8 +588,25 @@ func (rr *c18sRunner) run(ch *c18sChain, label string, incremental bool, sampleE
 	if ch.cfg.Boot > 0 {
 		vbase = ch.model(ch.cfg.Boot) + 1
 	}
+	var stack []*dbm.MemDB
+	var vstack []int64
 	for _, op := range ops {
 		out.ops++
+		if op.Op == "Push" { // branch point: remember the disk
+			stack, vstack = append(stack, c18sClone(cur)), append(vstack, vbase)
+			out.emit(map[string]interface{}{"ev": "Push"})
+			continue
+		}
+		if op.Op == "Pop" { // back to the remembered disk, store reopened on it
+			cur, vbase = stack[len(stack)-1], vstack[len(vstack)-1]
+			stack, vstack = stack[:len(stack)-1], vstack[:len(vstack)-1]
+			jdb = &c18sDB{DB: cur}
+			ss = NewStore(jdb, StoreOptions{})
+			b, h := aud.virtualRange(NewStore(cur, StoreOptions{}), vbase)
+			out.emit(map[string]interface{}{"ev": "Pop"})
+			out.emit(map[string]interface{}{"ev": "Reopen", "k": -1, "mbase": b, "mheight": h})
+			continue
+		}
 		if op.Op == "Reopen" {
 			cur = c18sClone(cur)
 			jdb = &c18sDB{DB: cur}
@@ -583,7 +615,24 @@ func (rr *c18sRunner) run(ch *c18sChain, label string, incremental bool, sampleE
 			out.emit(map[string]interface{}{"ev": "Reopen", "k": -1, "mbase": b, "mheight": h})
 			continue
 		}
-		auditing := op.Audit != "none"
+		if op.Op == "Load" {
+			// install the abstraction of the whole database (after operations run "silent")
+			journal := []c18sWrite{}
+			b, h := aud.virtualRange(NewStore(cur, StoreOptions{}), vbase)
+			it, err := cur.Iterator(nil, nil)
+			if err != nil {
+				panic(err)
+			}
+			for ; it.Valid(); it.Next() {
+				journal = append(journal, ch.abstractEntry(c18sEntry{key: it.Key(), val: it.Value()}, b, h))
+			}
+			it.Close()
+			out.emit(map[string]interface{}{"ev": "Op", "op": "Load", "a": 0, "b": 0, "c": 0, "res": "ok", "n": len(journal),
+				"journal": journal, "mem0": map[string]int64{"base": b, "height": h}, "audited": false})
+			continue
+		}
+		silent := op.Audit == "silent"
+		auditing := op.Audit != "none" && !silent
 		var pre *dbm.MemDB
 		if auditing || op.Crash != -1 {
 			pre = c18sClone(cur)
@@ -653,8 +702,10 @@ func (rr *c18sRunner) run(ch *c18sChain, label string, incremental bool, sampleE
 		if crashAt > len(entries) {
 			crashAt = len(entries)
 		}
-		out.emit(map[string]interface{}{"ev": "Op", "op": op.Op, "a": a, "b": b, "c": c, "res": res, "n": len(journal),
-			"journal": journal, "mem0": map[string]int64{"base": m0b, "height": m0h}, "audited": auditing})
+		if !silent {
+			out.emit(map[string]interface{}{"ev": "Op", "op": op.Op, "a": a, "b": b, "c": c, "res": res, "n": len(journal),
+				"journal": journal, "mem0": map[string]int64{"base": m0b, "height": m0h}, "audited": auditing})
+		}
 		var crashImg *dbm.MemDB
 		if crashAt == 0 {
 			crashImg = c18sClone(pre)
@@ -754,8 +805,9 @@ func c18sBuild(ch *c18sChain, upto int64, audit string) []c18sOp {
 }
 
 type c18sInput struct {
-	Tier   string `json:"tier"`
-	Random int    `json:"random"`
+	Tier   string       `json:"tier"`
+	Random int          `json:"random"`
+	Replay []c18sReplay `json:"replay"` // if set: run exactly these histories instead of the scenarios
 }
 
 func TestVerifC18State(t *testing.T) {
@@ -779,6 +831,14 @@ func TestVerifC18State(t *testing.T) {
 	defer f.Close()
 	rr := &c18sRunner{out: &c18sOut{enc: json.NewEncoder(f)}, rng: rand.New(rand.NewSource(seed*104729 + 18))}
 	quick := in.Tier != "thorough"
+	if in.Replay != nil {
+		for _, r := range in.Replay {
+			rr.run(c18sMakeChain(r.Cfg), "replay", r.Incremental, 1, r.Ops)
+		}
+		t.Logf("C18STAT runs=%d ops=%d lines=%d audits=%d prio_mismatch=%d loader_panics=%d",
+			rr.out.runs, rr.out.ops, rr.out.lines, rr.out.audits, rr.out.prio, rr.out.panics)
+		return
+	}
 
 	// (1) long chain: one PruneStates crossing the 1000-height flush interval (twice in thorough)
 	{
@@ -792,15 +852,14 @@ func TestVerifC18State(t *testing.T) {
 		if every == 1 {
 			mode = ""
 		}
-		ops := c18sBuild(ch, n, "none")
-		ops = append(ops, c18sOp{Op: "PruneStates", A: 1, B: n - 3, Crash: -1, Audit: mode})
-		rr.run(ch, "long", true, every, ops)
-		// the same prune interrupted in its second batch, then continued from the retained base
-		ops = c18sBuild(ch, n, "none")
-		ops = append(ops, c18sOp{Op: "PruneStates", A: 1, B: n - 3, Crash: 3000 + 17, Audit: "none"},
+		ops := c18sBuild(ch, n, "silent")
+		ops = append(ops, c18sOp{Op: "Load"},
+			c18sOp{Op: "Push"}, c18sOp{Op: "PruneStates", A: 1, B: n - 3, Crash: -1, Audit: mode}, c18sOp{Op: "Pop"},
+			// the same prune interrupted in its second batch, then continued from the retained base
+			c18sOp{Op: "PruneStates", A: 1, B: n - 3, Crash: 3000 + 17, Audit: "none"},
 			c18sOp{Op: "SaveABCI", A: n, Crash: -1, Audit: "none"},
 			c18sOp{Op: "PruneStates", A: n - 3, B: n - 1, Crash: -1, Audit: ""})
-		rr.run(ch, "long-interrupted", true, 1, ops)
+		rr.run(ch, "long", true, every, ops)
 	}
 
 	// (2) windows around a validator-set checkpoint: every (change position, retain height)
@@ -823,17 +882,19 @@ func TestVerifC18State(t *testing.T) {
 				}
 				cfg := c18sCfg{Initial: first, N: 11, ValChg: chg, ParChg: []int64{first + 2}, NVals: 3}
 				ch := c18sMakeChain(cfg)
+				// the chain is saved once; every retain height is tried from that disk (Push / Pop)
+				ops := c18sBuild(ch, ch.last, "none")
 				for to := first + 1; to <= ch.last; to++ {
 					if quick && (to-first)%2 == 1 && to != ck && to != ck+1 {
 						continue
 					}
-					ops := c18sBuild(ch, ch.last, "none")
-					ops = append(ops, c18sOp{Op: "PruneStates", A: first, B: to, Crash: -1})
+					ops = append(ops, c18sOp{Op: "Push"}, c18sOp{Op: "PruneStates", A: first, B: to, Crash: -1})
 					if to+2 <= ch.last {
 						ops = append(ops, c18sOp{Op: "PruneStates", A: to, B: to + 2, Crash: -1})
 					}
-					rr.run(ch, fmt.Sprintf("ckpt first=%d chg=%v to=%d", first, chg, to), false, 1, ops)
+					ops = append(ops, c18sOp{Op: "Pop"})
 				}
+				rr.run(ch, fmt.Sprintf("ckpt first=%d chg=%v", first, chg), false, 1, ops)
 			}
 		}
 	}
